@@ -63,6 +63,8 @@ pub enum Op {
     Resave { file: String },
     /// C13: weed(F) and reverse-weed(F) partition F; weeding twice changes nothing
     WeedLaws { file: String, weed: String },
+    /// C13: the same weed, in place, on a copy of the file whose name does not end in .skf
+    WeedOddName { file: String, weed: String, ext: String, reverse: bool },
     /// C06: `ska align` against the model predicate
     Align { file: String, a: AlignJ },
     /// C14: `ska distance` against the model definition
@@ -696,6 +698,36 @@ impl<'a> Exec<'a> {
                 self.dir.remove(".wa.skf");
                 self.dir.remove(".wb.skf");
             }
+            Op::WeedOddName { file, weed, ext, reverse } => {
+                let table = self.model(file)?.table.clone();
+                let s = self.weed_set(weed, table.k, table.rc)?;
+                let odd = format!("odd_copy{ext}");
+                let Some(bytes) = self.dir.read(&skf(file)) else { return Err(Stop::Invalid("file missing".into())) };
+                self.dir.write(&odd, &bytes);
+                let before: BTreeSet<String> = self.dir.listing().into_iter().collect();
+                let mut a = vec!["weed".to_string(), odd.clone(), weed.clone(), "--min-freq".into(), "0".into()];
+                if *reverse {
+                    a.push("--reverse".into());
+                }
+                let r = self.run(a)?;
+                if !r.ok() {
+                    return viol("weed:fails", format!("in-place weed of {odd} ended with {}: {}", r.status_str(), r.stderr_tail()));
+                }
+                let after: BTreeSet<String> = self.dir.listing().into_iter().collect();
+                let got = match inspect(&self.dir.p(&odd)) {
+                    Ok(i) => i.table,
+                    Err(e) => return viol("weed:output-unreadable", format!("{odd}: {e}")),
+                };
+                let exp = table.weed(&s, *reverse);
+                if got != exp {
+                    return viol("weed:in-place-on-a-file-without-skf-suffix-differs", format!("ska weed {odd} {weed} (no -o): {}; files created: {:?}", exp.diff(&got), after.difference(&before).collect::<Vec<_>>()));
+                }
+                if after != before {
+                    return viol("weed:in-place-weed-created-another-file", format!("ska weed {odd} (no -o) created {:?}", after.difference(&before).collect::<Vec<_>>()));
+                }
+                probe("weed_in_place_on_file_without_skf_suffix");
+                self.dir.remove(&odd);
+            }
             Op::Align { file, a } => {
                 let table = self.model(file)?.table.clone();
                 let Some((_, thr)) = freq_setting(a.min_count, a.pct, table.n()) else {
@@ -1253,7 +1285,10 @@ impl StoreWorkload {
                 let cur = files.keys().next_back().unwrap().clone();
                 let nn = files[&cur].len();
                 for _ in 0..rng.range(1, 3) {
-                    if rng.chance(50) {
+                    if rng.chance(12) {
+                        let ext = ["", ".ska", ".skf.orig", ".v2"][rng.below(4)].to_string();
+                        ops.push(Op::WeedOddName { file: cur.clone(), weed: rng.pick(&weeds).clone(), ext, reverse: rng.chance(30) });
+                    } else if rng.chance(50) {
                         ops.push(Op::WeedLaws { file: cur.clone(), weed: rng.pick(&weeds).clone() });
                     } else {
                         let o = gen_weedopts(&mut rng, nn, &weeds, false);
@@ -1499,7 +1534,7 @@ impl Workload for StoreWorkload {
             match ex.step(op) {
                 Ok(()) => {
                     let rel = match (c.focus.as_str(), op) {
-                        ("C07", Op::Merge { .. }) | ("C08", Op::Delete { .. }) | ("C13", Op::Weed { .. }) | ("C13", Op::WeedLaws { .. }) | ("C06", Op::Align { .. }) | ("C14", Op::Distance { .. }) | ("C14", Op::DistancePermuted { .. }) | ("C10", Op::Canon { .. }) => true,
+                        ("C07", Op::Merge { .. }) | ("C08", Op::Delete { .. }) | ("C13", Op::Weed { .. }) | ("C13", Op::WeedLaws { .. }) | ("C13", Op::WeedOddName { .. }) | ("C06", Op::Align { .. }) | ("C14", Op::Distance { .. }) | ("C14", Op::DistancePermuted { .. }) | ("C10", Op::Canon { .. }) => true,
                         ("C10", Op::Build { .. }) => false,
                         ("C10", _) => true,
                         _ => false,
